@@ -143,8 +143,13 @@ XcaseOK(e) ==
                    /\ ((q <= e.pos \/ q > e.pos + e.size) => e.outs[g][q] = e.din[q])     \* only the range changes
                    /\ ((q > e.pos /\ q <= detHi) => e.outs[g][q] = ref[q])                \* bit-identical where determined
 
+\* the complete tables of a process started under another CPU affinity equal those of the unrestricted process of the same
+\* run (whose entries are validated one by one above): table construction does not depend on the environment
+TableDigOK(e) == e.digs = e.base
+
 EventOK(e) ==
   CASE e.ev = "table"    -> TableOK(e)
+    [] e.ev = "tabledig" -> TableDigOK(e)
     [] e.ev = "mul"      -> MulOK(e)
     [] e.ev = "fft"      -> FftOK(e)
     [] e.ev = "ifft"     -> IfftOK(e)
